@@ -17,6 +17,8 @@ Rewrites (complete list of the differences to the code that runs in production):
       to the Python operator otherwise).  Chained comparisons are left untouched.
   R6  true division  a / b          -> __vf_div(a, b)   (in symbolic mode the quotient of two plain integers is the exact
       rational instead of its rounded double — the real-number semantics of assumption A1; identical to a / b otherwise)
+  R7  augmented assignment to a name / attribute  a op= b  -> a = __vf_iop('op', a, b)  (= operator.i<op>(a, b), Python's own meaning; only
+      when numpy refuses to store symbols into a numeric buffer the update goes to an object-dtype copy)
 Nothing is dropped.
 """
 from __future__ import annotations
@@ -38,6 +40,9 @@ from .symnp import BUILTIN_SHIMS, SymMath, SymNP
 _NP = SymNP()
 _MATH = SymMath()
 _CMP = {ast.Lt: "<", ast.LtE: "<=", ast.Gt: ">", ast.GtE: ">=", ast.Eq: "==", ast.NotEq: "!="}
+
+_AUG = {ast.Add: "+", ast.Sub: "-", ast.Mult: "*", ast.Div: "/", ast.FloorDiv: "//", ast.Mod: "%", ast.Pow: "**", ast.MatMult: "@", ast.BitAnd: "&", ast.BitOr: "|",
+        ast.BitXor: "^", ast.LShift: "<<", ast.RShift: ">>"}
 
 _installed = {}   # fn -> original code
 
@@ -96,6 +101,15 @@ class _Rewriter(ast.NodeTransformer):
         if isinstance(node.op, ast.Div):
             return ast.copy_location(ast.Call(func=ast.Name("__vf_div", ast.Load()), args=[node.left, node.right], keywords=[]), node)
         return node
+
+    def visit_AugAssign(self, node):
+        self.generic_visit(node)
+        sym = _AUG.get(type(node.op))
+        if sym is None or not isinstance(node.target, (ast.Name, ast.Attribute)):
+            return node
+        load = ast.Name(node.target.id, ast.Load()) if isinstance(node.target, ast.Name) else ast.Attribute(node.target.value, node.target.attr, ast.Load())
+        call = ast.Call(func=ast.Name("__vf_iop", ast.Load()), args=[ast.Constant(sym), load, node.value], keywords=[])
+        return ast.copy_location(ast.Assign(targets=[node.target], value=call), node)
 
     def visit_Compare(self, node):
         self.generic_visit(node)
@@ -217,6 +231,7 @@ def instrument_function(fn, stubs=None):
     g.setdefault("__vf_astype", symnp.astype)
     g.setdefault("__vf_cmp", symnp.vf_cmp)
     g.setdefault("__vf_div", symnp.vf_div)
+    g.setdefault("__vf_iop", symnp.vf_iop)
     for k, v in BUILTIN_SHIMS.items():
         g.setdefault("__vf_" + k, v)
     for k, v in stubs.items():
